@@ -522,6 +522,37 @@ def check_window_zones(case):
     return out
 
 
+def check_order_zones(case):
+    """C20: "delivered over the order's window" -- the window of an order is a pair of instants: given naive it is read in the grid's zone,
+    given zone-aware (in the grid's zone or another) it denotes that instant, whether the orders come as a dictionary or as a DataFrame."""
+    eao = eao_mod()
+    out = []
+    tz = case['tz']
+    tg = eao.assets.Timegrid(pd.Timestamp(case['start']), pd.Timestamp(case['start']) + pd.Timedelta(case['hours'], 'h'), freq='h', timezone=tz)
+    pts = list(tg.timepoints) + [tg.end]
+    wins = [(min(a, tg.T - 1), min(b, tg.T)) for a, b in case['windows']]
+    conv = {'naive': lambda t: t.tz_localize(None), 'same': lambda t: t}.get(case['given'], lambda t: t.tz_convert(case['given']))
+    starts, ends = [conv(pts[a]) for a, _ in wins], [conv(pts[b]) for _, b in wins]
+    orders = {'start': starts, 'end': ends, 'capa': [1. + k for k in range(len(wins))], 'price': [2.] * len(wins)}
+    if case['form'] == 'frame':
+        orders = pd.DataFrame(orders)
+    elif case['form'] == 'arrays':
+        orders = {k: np.asarray(v, dtype=object if k in ('start', 'end') else float) for k, v in orders.items()}
+    try:
+        book = eao.assets.OrderBook(name='book', nodes=eao.assets.Node('n'), orders=orders)
+        op = book.setup_optim_problem({}, tg)
+    except Exception as ex:
+        out.append(fail('C20.orderbook.window_dates_denote_instants', 'assets:OrderBook.setup_optim_problem', case, dict(case), f'{type(ex).__name__}: {str(ex)[:150]}'))
+        return out
+    for k, (a, b) in enumerate(wins):
+        got = sorted(int(t) for t in op.mapping['time_step'][op.mapping.index == k])
+        if got != list(range(a, b)):
+            out.append(fail('C20.orderbook.window_dates_denote_instants', 'assets:OrderBook.setup_optim_problem', case, dict(case),
+                            f'order {k} with window [{starts[k]}, {ends[k]}) given as {case["given"]} ({case["form"]}): delivered in steps {got}, the window covers steps {list(range(a, b))}'))
+            break
+    return out
+
+
 def check_unit_linked(case):
     """C12 for durations that are not rates: a LinkedAsset (a main unit may only run while an auxiliary unit is on, looking time_back /
     time_forward main time units around each step) on an hourly grid, set up in two main time units with durations and rates re-expressed:
@@ -827,7 +858,8 @@ def check_scaled(case):
     mk = eao.assets.SimpleContract(name='m', nodes=node, price='p', min_cap=-10., max_cap=10.)
     prices_ = {'p': price, 'fix': np.full(T, 17.)}
     try:
-        op, res = optimize(eao.portfolio.Portfolio([sc, mk]), prices_, tg)
+        pf_sc = eao.portfolio.Portfolio([sc, mk])
+        op, res = optimize(pf_sc, prices_, tg)
     except Exception as e:
         out.append(fail('C16.scaled.fixed_scale_equals_scaled_base_less_fix_costs', 'assets:ScaledAsset.setup_optim_problem', case, dict(case),
                         f'setting up the scaled asset raises {type(e).__name__}: {str(e)[:140]}'))
@@ -841,13 +873,13 @@ def check_scaled(case):
     mp = op.mapping
     size_rows = mp[(mp['asset'] == 'sc') & (mp['type'] == 'size')]
     n_sc = len(sc.setup_optim_problem(prices_, tg).c)
-    off = 0 if [x.name for x in eao.portfolio.Portfolio([sc, mk]).assets][0] == 'sc' else None
+    off = 0 if pf_sc.assets[0].name == 'sc' else None
     if len(size_rows) != 1 or (off is not None and int(size_rows.index[0]) != off + n_sc - 1) or \
             abs(float(op.c[int(size_rows.index[0])]) - case['rate'] * dur) > 1e-9:
         out.append(fail('C07.scaled.scale_row_names_the_scale_variable', 'assets:ScaledAsset.setup_optim_problem', case, dict(case),
                         f'mapping row of the scale points to variable {list(size_rows.index)}, the scale is variable {n_sc - 1} (cost {case["rate"] * dur})'))
     try:
-        o = eao.io.extract_output(eao.portfolio.Portfolio([sc, mk]), op, res, prices_)
+        o = eao.io.extract_output(pf_sc, op, res, prices_)
         tot = float(o['DCF'].sum().sum())
         if abs(tot - res.value) > 1e-6 * max(1., abs(res.value)):
             out.append(fail('C04.scaled.value_equals_sum_of_dcf', 'assets:ScaledAsset.setup_optim_problem', case, dict(case), f'value {res.value} vs DCF total {tot}'))
@@ -1267,7 +1299,8 @@ def _stoch_setup(case):
     pts = list(tg.timepoints) + [tg.end]
     A, B = eao.assets.Node('A'), eao.assets.Node('B')
     assets = [eao.assets.SimpleContract(name='m', nodes=A, price='p', min_cap=-2., max_cap=2.),
-              eao.assets.Storage(name='s', nodes=A, size=3., cap_in=1., cap_out=1., eff_in=.9, start_level=1., end_level=0.)]
+              eao.assets.Storage(name='s', nodes=A, size=3., cap_in=1., cap_out=1., eff_in=.9, start_level=1., end_level=0., no_simult_in_out=bool(case.get('nosimult')),
+                                 max_store_duration=case.get('max_dur'))]
     if case.get('transport'):
         assets += [eao.assets.Transport(name='t', nodes=[A, B], min_cap=0., max_cap=1.5, efficiency=.9),
                    eao.assets.SimpleContract(name='mb', nodes=B, price='q', min_cap=-1., max_cap=0., extra_costs=.1)]
@@ -1312,10 +1345,22 @@ def check_slp(case):
     first = m0[~m0.index.duplicated(keep='first')]
     fut = first['time_step'].values >= k
     n_f = int(fut.sum())
+    F = lambda name, detail: out.append(fail(name, 'stoch_lin_prog:make_slp', case, dict(case), detail))
+    # cost vectors per price sample (costs_only) are the cost vectors of the full set-up, asset by asset
+    for a in pf.assets:
+        try:
+            c_only = np.asarray(a.setup_optim_problem(samples[0], tg, costs_only=True), dtype=float)
+            c_full = np.asarray(a.setup_optim_problem(samples[0], tg).c, dtype=float)
+        except Exception as e:
+            F('C17.costs_only.asset_cost_vector_equals_full_set_up', f'asset {a.name}: {type(e).__name__}: {str(e)[:120]}')
+            return out
+        if c_only.shape != c_full.shape or not np.allclose(c_only, c_full):
+            F('C17.costs_only.asset_cost_vector_equals_full_set_up', f'asset {a.name} ({type(a).__name__}): costs_only gives {c_only.shape[0]} entries, the full set-up {c_full.shape[0]}'
+              + ('' if c_only.shape != c_full.shape else ' with other values'))
+            return out
     op_slp = eao.stoch_lin_prog.make_slp(deepcopy(op), pf, tg, pts[k], [dict(s) for s in samples])
     scen = [base] + samples
     S1 = len(scen)
-    F = lambda name, detail: out.append(fail(name, 'stoch_lin_prog:make_slp', case, dict(case), detail))
     if len(op_slp.c) != n0 + case['S'] * n_f:
         F('C17.slp.present_shared_future_copied_per_sample', f'{len(op_slp.c)} variables, expected {n0} + {case["S"]} x {n_f}')
         return out
